@@ -413,3 +413,44 @@ def rule_index_count_pairing(ctx):
                 ctx.holds("PAIR", key, f.where(qcall[5]), "bound `%s` comes from %s(%s, ..) and the body indexes `%s`" % (bv[1], qcall[1], qobj, qobj), nontrivial=True)
     ctx.floor("PAIR", 5, n, "(index loops bounded by a queried count in the tools)")
     return n
+
+
+def rule_empty_keeps_attrs(ctx):
+    """EMPTYATTR (C19): hdiff compares data and attributes of a pair of data sets.  'There is no data to compare' (SDcheckempty) is a
+    reason to skip the data, not the attributes: the exit taken for an empty data set must lead to code that still reaches
+    diff_sds_attrs.  Jumping to the clean-up label behind that call makes two files that differ only in an attribute of a data set
+    without data compare equal."""
+    from .codec import ast_walk
+    prog = ctx.prog
+    f = next((g for g in prog.funcs if g.name == "diff_sds" and "mfhdf/hdiff/" in g.rel), None)
+    key = "EMPTYATTR:diff_sds"
+    if f is None:
+        ctx.unrecognised("EMPTYATTR", key, "-", "diff_sds not found")
+        return 0
+    labels = {}
+    gotos = []
+    calls = [c[5] for _b, _i, _s, c in f.calls() if c[1] == "diff_sds_attrs"]
+
+    def vis(nn, st):
+        if nn[0] == "label":
+            labels[nn[1]] = nn[3] if len(nn) > 3 else 0
+        if nn[0] == "goto":
+            conds = [a for a in st if a[0] == "if"]
+            cc = strip(conds[-1][1]) if conds else None
+            if cc is not None and kind(cc) == "bin" and cc[1] in ("==", "!=") and kind(strip(cc[2])) == "var" and "empty" in strip(cc[2])[1] and is_int(cc[3]):
+                gotos.append((nn[1], nn[2] if len(nn) > 2 else 0))
+        return True
+    ast_walk(f.raw.get("ast"), vis)
+    if not gotos or not calls:
+        ctx.unrecognised("EMPTYATTR", key, f.where(), "no empty-data-set exit (%d) or no call of diff_sds_attrs (%d) found" % (len(gotos), len(calls)))
+        return 0
+    n = 0
+    for k, (lab, line) in enumerate(gotos):
+        n += 1
+        kk = "%s#%d" % (key, k + 1)
+        ll = labels.get(lab)
+        if ll is not None and ll <= min(calls):
+            ctx.holds("EMPTYATTR", kk, f.where(line), "the empty-data-set exit goes to `%s`, ahead of the attribute comparison" % lab, nontrivial=True)
+        else:
+            ctx.violated("EMPTYATTR", kk, f.where(line), "the exit taken for a data set without data jumps to `%s`, behind the call of diff_sds_attrs: attribute differences of such data sets are never reported" % lab)
+    return n
